@@ -252,6 +252,24 @@ def remote_failure_section(rng, thorough, res, count):
                     res["violations"].append(("excluded-destination-file-removed", f"destination file conf/site matches --exclude {pat} and was removed or replaced (rc {rc})", rep))
                 if d0 != {k: v for k, v in dst.items()}:
                     res["violations"].append(("dry-run-modified-destination", "the dry run changed the destination", rep))
+    # push --delete with a LONG delete list (> 64 KiB of names) next to an excluded file whose name is a prefix of a stale one:
+    # every stale file goes, nothing else does — however the list is cut up on its way to the remote `xargs`
+    for pad in (0, 1, 7):
+        src = {"keep.txt": (b"kept", 1_650_000_000, 0)}
+        dst = {"keep.txt": (b"kept", 1_650_000_000, 0), "data/file.bin": (b"excluded, must stay", 1_500_000_000, 0),
+               "data/file.bin.old": (b"stale", 1_500_000_000, 0), "data/file.bin" + "x" * pad + ".bak": (b"stale too", 1_500_000_000, 0)}
+        for i in range(1100):
+            dst[f"stale/{i:04d}-" + "n" * 50 + ".tmp"] = (b"x", 1_500_000_000, 0)
+        with Sandbox("C04rf") as sb:
+            rc, out, err, s1, d1, sroot, droot = run_case(sb, rng, "push", src, dst, ["--delete", "--exclude", "*.bin"], count)
+            n += 1
+            count("long-delete-list/push")
+            left = sorted(k for k in d1 if k not in ("keep.txt", "data/file.bin"))
+            rep = {"direction": "push", "flags": ["--delete", "--exclude", "*.bin"], "stale_names": len(dst) - 2, "rc": rc, "stderr": err[-300:], "left_over": left[:5]}
+            if "data/file.bin" not in d1:
+                res["violations"].append(("excluded-destination-file-removed", "push --delete with a long delete list removed the excluded data/file.bin", rep))
+            if rc == 0 and left:
+                res["violations"].append(("planned-delete-not-performed", f"push --delete exited 0 and left {len(left)} stale file(s) behind, e.g. {left[:2]}", rep))
     # the remote account has CDPATH set (and a directory of the root's name under it): the listing must be that of the root given
     for direction in ("pull", "push"):
         src = {"a.txt": (b"first in the listing", 1_650_000_000, 0), "b.txt": (b"second", 1_650_000_001, 0), "sub/c.txt": (b"third", 1_650_000_002, 0)}
